@@ -17,7 +17,8 @@ void h_lemma_real(void)
 {
   float mx = nondet_float(), mn = nondet_float(), x = nondet_float();
   __CPROVER_assume(FINITE_F(mx) && FINITE_F(mn) && FINITE_F(x) && mn <= x && x <= mx && DOMAIN(mx, mn));
-  float scale = 0;
+  float scale = nondet_float(); /* 0 (automatic) or a preferred positive factor */
+  __CPROVER_assume(scale >= 0 && scale <= FLT_MAX);
   K_find_scale_factor(&scale, mx, mn);
   if (scale > 0)
     {
